@@ -273,11 +273,11 @@ def _ends_on_equator(case):
 SUBCHECKS = [
     SubCheck("inverse_is_definition", check_inverse_definition, strategy=lines(), nontrivial=_nt, classes=_classes,
              quick=1200, thorough=60000, shards_quick=4, shards_thorough=16, seq_groups=GROUPS,
-             rule="vincinv_utm = (vincinv distance x line_sf, azimuths + convergence of each point's own zone)"),
+             fresh=(8, 64, 3), rule="vincinv_utm = (vincinv distance x line_sf, azimuths + convergence of each point's own zone)"),
     SubCheck("direct_inverts_inverse", check_direct_inverts, strategy=lines(), nontrivial=_nt, classes=_classes,
              quick=1000, thorough=50000, shards_quick=4, shards_thorough=16, seq_groups=GROUPS,
              matchers={"ends_on_equator": _ends_on_equator},
-             rule="vincdir_utm with the inverse's bearing and grid distance reproduces point 2 (in zone 1) within 1 mm"),
+             fresh=(8, 64, 3), rule="vincdir_utm with the inverse's bearing and grid distance reproduces point 2 (in zone 1) within 1 mm"),
     SubCheck("line_scale_factor_bounds", check_lsf_bounds, strategy=lines(), nontrivial=_nt, classes=_classes,
              quick=1200, thorough=60000, shards_quick=4, shards_thorough=16, seq_groups=GROUPS,
              rule="min k - 3e-7 <= lsf <= max k + 3e-7 and |lsf - Simpson mean| <= 5e-7 with k from the exact projection at 0, 1/4, 1/2, 3/4, 1"),
